@@ -84,6 +84,8 @@ def run(ctx: Ctx):
         "harness X: DuckDB/SQLite evaluate each rule on each candidate pair (outcome matrix fed to the Gallina model)",
         "modelled not verified: SQL engines' join/UNION ALL/EXISTS semantics, random() salt in (0,1]",
     ]
+    if ctx.replay:
+        return replay(ctx)
     ok = ctx.proof_stage("Properties/C01.v")
     if not ok:
         ctx.violation("theorems of Properties/C01.v no longer check", {"broken": "Properties/C01.v"}, found_input=False)
@@ -91,3 +93,38 @@ def run(ctx: Ctx):
     from harness import c01_x
     c01_x.report_skeleton_failures(ctx, failing, cex)
     c01_x.correspondence(ctx)
+
+
+def replay(ctx: Ctx):
+    """./check C01 --replay f : re-run one replay file's input against the current tree."""
+    import json as _json
+    from harness import c01_x
+    r = _json.load(open(ctx.replay))
+    if "case" in r:
+        case, entry = r["case"], r.get("entry", "predict")
+        rows, mats = c01_x.outcome_matrices(case)
+        impl = c01_x.run_impl(case, entry)
+        term, expd = c01_x.case_term(case, rows, mats, impl)
+        bad, errs = ctx.eval_cases("C01_replay", c01_x.HEADER, [term], "run_case", shard=1)
+        ctx.count_case("replay", True, {"replay": ctx.replay})
+        ctx.obligation("replayed case: implementation = Gallina block", not bad and not errs)
+        if bad or errs:
+            ctx.violation("replayed input still fails: blocking output differs from specification",
+                          {"case": case, "entry": entry, "implementation": expd,
+                           "specification": c01_x.py_model(case, rows, mats)}, c01_x.features_of(case))
+        else:
+            ctx.log("replayed input agrees with the specification on the current tree")
+    elif "obligation" in r and "kinds" in r["obligation"]:
+        o = r["obligation"]
+        d = T.skeleton_for(tuple(o["kinds"]), tuple(o["shapes"]), o["link_type"])
+        term = f"({d['lt']}, {d['natoms']}, {d['ns']}, {d['rules']}, {d['sk']})"
+        runner = "fun c => match c with (lt, na, ns, rules, sk) => skeleton_ok lt na ns rules sk end"
+        bad, errs = ctx.eval_cases("C01_replay", HEADER, [term], runner, shard=1)
+        ctx.count_case("replay", True, {"replay": ctx.replay})
+        ctx.obligation("replayed skeleton obligation", not bad and not errs)
+        if bad or errs:
+            ctx.violation("replayed skeleton obligation still fails", {"obligation": o}, {"skeleton": True}, found_input=False)
+    else:
+        ctx.log("replay file has no re-runnable case; running the full check instead")
+        ctx.replay = None
+        return run(ctx)
